@@ -10,6 +10,7 @@ import (
 	"fmt"
 	asn1crypto "golang.org/x/crypto/cryptobyte/asn1"
 	"io"
+	"math"
 	"math/big"
 	"time"
 )
@@ -90,7 +91,7 @@ func ReadUtcTime(reader Asn1Reader) (*time.Time, error) {
 	if err != nil {
 		return nil, err
 	}
-	lastUpdateUtcBytes, err := ReadExpectedBytes(reader, int(lastUpdateUtcTag.Length.Length.Int64()))
+	lastUpdateUtcBytes, err := ReadExpectedBytes(reader, lengthToInt(&lastUpdateUtcTag.Length.Length))
 	if err != nil {
 		return nil, err
 	}
@@ -110,7 +111,7 @@ func ParseBitString(reader Asn1Reader) (*BitString, error) {
 	if err != nil {
 		return nil, err
 	}
-	readBytes, err := ReadExpectedBytes(reader, int(tagLength.Length.Length.Int64()))
+	readBytes, err := ReadExpectedBytes(reader, lengthToInt(&tagLength.Length.Length))
 	if err != nil {
 		return nil, err
 	}
@@ -138,7 +139,7 @@ func ParseOctetString(reader Asn1Reader) (ret []byte, err error) {
 	if err != nil {
 		return nil, err
 	}
-	return ReadExpectedBytes(reader, int(tagLength.Length.Length.Int64()))
+	return ReadExpectedBytes(reader, lengthToInt(&tagLength.Length.Length))
 }
 
 func ParseUTCTime(bytes []byte) (*time.Time, error) {
@@ -197,8 +198,16 @@ func ReadTVLBytesWithLimit(reader Asn1Reader, tagLength TagLength, maxLength int
 
 func CalculateWholeTLVLength(tagLength TagLength) int {
 	tlvHeaderLength := tagLength.Length.LengthSize + 1
-	realLength := int(tagLength.Length.Length.Int64()) + tlvHeaderLength
+	realLength := lengthToInt(&tagLength.Length.Length) + tlvHeaderLength
 	return realLength
+}
+
+// lengthToInt converts a length to int, a length which does not fit is reported as -1 (which is rejected when reading)
+func lengthToInt(length *big.Int) int {
+	if !length.IsInt64() || length.Int64() > math.MaxInt32 {
+		return -1
+	}
+	return int(length.Int64())
 }
 
 func ExpectLengthNotGreater(expectedLength *big.Int, length *big.Int) error {
@@ -259,13 +268,32 @@ func PeekTag(reader Asn1Reader, offset int) (*asn1crypto.Tag, error) {
 	return &tag, nil
 }
 
+// maxReadChunkSize is the maximum amount of memory which is allocated before data was really read
+const maxReadChunkSize = 64 * 1024
+
 func ReadExpectedBytes(reader Asn1Reader, byteSize int) ([]byte, error) {
-	readBytes := make([]byte, byteSize)
-	err := ReadExpectedBytesRecursive(reader, byteSize, &readBytes, 0)
-	if err != nil {
-		return nil, err
+	if byteSize < 0 {
+		return nil, fmt.Errorf("invalid length %d", byteSize)
+	}
+	//the size usually comes from a length field of the input and might not be backed by data (or might be wrong on purpose).
+	//Therefore the data is read in chunks, so the memory which is allocated is limited by the data which is really present
+	readBytes := make([]byte, 0, minInt(byteSize, maxReadChunkSize))
+	for len(readBytes) < byteSize {
+		chunk := make([]byte, minInt(byteSize-len(readBytes), maxReadChunkSize))
+		err := ReadExpectedBytesRecursive(reader, len(chunk), &chunk, 0)
+		if err != nil {
+			return nil, err
+		}
+		readBytes = append(readBytes, chunk...)
 	}
 	return readBytes, nil
+}
+
+func minInt(a int, b int) int {
+	if a < b {
+		return a
+	}
+	return b
 }
 
 func ReadExpectedBytesRecursive(reader Asn1Reader, byteSize int, byteArray *[]byte, currentPosition int) error {
@@ -378,7 +406,7 @@ func ReadBigInt(reader Asn1Reader) (*big.Int, error) {
 	if err != nil {
 		return nil, err
 	}
-	readBytes, err := ReadExpectedBytes(reader, int(tagLength.CalculateValueLength().Int64()))
+	readBytes, err := ReadExpectedBytes(reader, lengthToInt(tagLength.CalculateValueLength()))
 	if err != nil {
 		return nil, err
 	}
